@@ -1,5 +1,5 @@
 (** C12 - override constants reach the pipeline under the right key and value (structure part). *)
-From W2W Require Import Wf C12Spec C12Proof.
+From W2W Require Import Wf C12Spec C12Proof Overrides C12Resolve.
 
 (** For every module whose overrides are named scalars with pairwise distinct keys: one field per override
     in order, of the matching scalar type, optional exactly when the declaration has a default; the
@@ -21,3 +21,47 @@ Example C12_nonvacuous :
     option_map (fun oo => (map ove_key (ov_required oo), map ove_key (ov_optional oo))) (o_overrides out_)
     = Some (["7"], ["scale"]).
 Proof. split; [reflexivity|]. eexists. split; vm_compute; reflexivity. Qed.
+
+(** Second half of the property: naga's override resolution accepts the map the generated [constants()] builds and
+    sees exactly the values supplied. For ANY type [F] of f64 values with the conversions the generated code uses and
+    ANY [lit_of] (naga's map_value_to_literal) that inverts those conversions on values of the field's own type (the
+    five retraction premises - exact for bool / i32 / u32 / f32, identity for f64; validated per run against naga's real
+    process_overrides): for every struct value [a] that is well typed for the module's overrides, the map is defined
+    (every value expression type-checks), and looking up each override the way naga does - decimal @id if present, else
+    the name - yields the assigned value, or falls back to the WGSL default exactly for the optional fields left None.
+    No required override is ever missing, none resolves to another override's value. *)
+Theorem C12_resolution :
+  forall (F : Type) (one zero : F) (of_i32 : Z -> F) (of_u32 of_f32 of_f64 : N -> F) (lit_of : F -> rprim -> option oval),
+  (forall b : bool, lit_of (if b then one else zero) PBool = Some (VBool b)) ->
+  (forall z : Z, (-2147483648 <= z < 2147483648)%Z -> lit_of (of_i32 z) PI32 = Some (VI32 z)) ->
+  (forall n : N, (n < 4294967296)%N -> lit_of (of_u32 n) PU32 = Some (VU32 n)) ->
+  (forall b : N, (b < 4294967296)%N -> lit_of (of_f32 b) PF32 = Some (VF32 b)) ->
+  (forall b : N, (b < 18446744073709551616)%N -> lit_of (of_f64 b) PF64 = Some (VF64 b)) ->
+  forall m src inc o out_ oo (a : assignment),
+  wf_overrides m = true -> gen m src inc o = Ok out_ -> o_overrides out_ = Some oo ->
+  assignment_ok m a ->
+  exists mp, constants_map F one zero of_i32 of_u32 of_f32 of_f64 oo a = Some mp /\
+    forall ov n, In ov (overrides m) -> od_name ov = Some n ->
+      naga_resolve F lit_of m ov mp = match a n with Some v => RValue v | None => RDefault end.
+Proof.
+  intros F one zero of_i32 of_u32 of_f32 of_f64 lit_of H1 H2 H3 H4 H5 m src inc o out_ oo a Hwf Hgen Hoo Ha.
+  exact (C12_resolution_ok F one zero of_i32 of_u32 of_f32 of_f64 lit_of H1 H2 H3 H4 H5 m out_ oo a Hwf
+           (C12_ok_gen m src inc o out_ Hwf Hgen) Hoo Ha).
+Qed.
+Print Assumptions C12_resolution.
+
+(** non-vacuity: an instance of the premises ([F] := the value itself) and a well-typed assignment for [ex_mod];
+    the map has the @id key for the required bool and no entry for the unset optional f32 *)
+Definition ex_lit (f : oval) (p : rprim) : option oval := if rprim_eqb (oval_prim f) p then Some f else None.
+Definition ex_assign : assignment := fun n => if String.eqb n "flag" then Some (VBool true) else None.
+Example C12_resolution_nonvacuous :
+  assignment_ok ex_mod ex_assign /\
+  exists oo, option_map (fun x => x) (match gen ex_mod "" None (mkOptions false false false false MVRust) with Ok o => o_overrides o | _ => None end) = Some oo /\
+    constants_map oval (VBool true) (VBool false) VI32 VU32 VF32 VF64 oo ex_assign = Some [("7", VBool true)].
+Proof.
+  split.
+  - intros o n [<-|[<-|[]]] Hn; inversion Hn; subst n; cbn.
+    + split; [intros _ H; discriminate H|]. intros v Hv. inversion Hv; subst v. split; [reflexivity|exact I].
+    + split; [intros H; discriminate H|]. intros v Hv. discriminate Hv.
+  - eexists. split; vm_compute; reflexivity.
+Qed.
